@@ -6,6 +6,18 @@ HERE = os.path.dirname(os.path.dirname(os.path.abspath(__file__)))
 
 # id -> (technique, level text, level note, design section)
 CHECKS = {
+    "C02": ("proptest generated requests (headers, redirect depth, APIs) + generated buffer-size schedules; strict-parse round trip against an effective-request model; metamorphic one-shot vs scheduled emission",
+            "each generated request is emitted one-shot and again under a schedule aimed at line boundaries; the head is parsed by a strict parser and compared field by field with the model, and the body actually sent is checked against the announced framing",
+            "trusted: strict request-head parser, effective-request model (redirect suppression, automatic Host / framing)"),
+    "C13": ("exhaustive enumeration of all redirect chains of length <= 2 over the origin/form/policy pool (889k chains) + proptest chains of 3..4 hops; credential-policy oracle from the generator's structure",
+            "complete for chains up to 2 hops over 24 origins x 4 Location forms x 2 policies; random for longer chains",
+            "trusted: structural target model (form semantics), strict request-head parser"),
+    "C14": ("proptest redirect chains with grammar-generated Locations; differential against an RFC 3986 section 5 reference resolver; RFC 5.4 tables and error-class tables enumerated",
+            "the reference resolver is written from the RFC pseudo code and validated on the RFC's own examples; chains make hop k+1 resolve against hop k",
+            "trusted: model/rfc3986.rs; domain restricted to where RFC 3986 and WHATWG URL agree (DESIGN section 7)"),
+    "C16": ("proptest redirected flows (depth 0..3) with caller-added headers aimed at the suppressed names; strict-parse round trip",
+            "same machinery as C02 with the generator aimed at the combination redirect -> add -> serialise",
+            "trusted: strict request-head parser, effective-request model"),
     "C03": ("proptest stateful histories (vec of ops + interpreter) against an incremental strict chunk decoder + exhaustive small grid",
             "every call of a generated write history is fed to a reference decoder; invariant checked after every step; the (input, output, finish-output) grid is enumerated completely for small sizes",
             "trusted: harness strict chunk decoder; both public APIs (Flow<SendBody>, Call<WithBody>)"),
